@@ -73,6 +73,10 @@ def to_real(v):
     raise TypeError("to_real %r" % (v,))
 
 
+def lim_r(fr):
+    return z3.RealVal("%d/%d" % (fr.numerator, fr.denominator))
+
+
 def bits_to_frac(x, size):
     if size == 8:
         d = struct.unpack("<d", struct.pack("<Q", x))[0]
@@ -1018,6 +1022,35 @@ class Exec:
         raise Unsupported("float arithmetic on symbolic bits %s" % str(v)[:60])
 
     def fbin(self, op, ty, a, b):
+        r = self.fbin0(op, ty, a, b)
+        if getattr(self, "range_watch", None) is not None and not isinstance(r, NF):
+            self.range_obl(op, r, self.as_real(b, ty))
+        return r
+
+    def range_obl(self, op, r, b):
+        """Exact-real stand-in for IEEE overflow / underflow-to-zero (set by a harness through ex.range_watch = (hi, tiny)):
+        every arithmetic result must stay below hi in magnitude and every divisor at or above tiny; a result >= 2^emax+1
+        is an infinity in the IEEE run and a divisor below half the smallest subnormal is a zero there."""
+        hi, tiny = self.range_watch
+        conds = [(r, hi, True)] + ([(b, tiny, False)] if op == "fdiv" else [])
+        for v, lim, upper in conds:
+            if isinstance(v, Fraction):
+                ok, m = (abs(v) < lim if upper else abs(v) >= lim), None
+                if not ok:
+                    m = self._model()
+            else:
+                x = to_real(v)
+                bad = z3.Or(x >= lim_r(lim), x <= -lim_r(lim)) if upper else z3.And(x < lim_r(lim), x > -lim_r(lim))
+                ok = not self.feasible(bad)
+                m = self._model(bad) if not ok else None
+            if not ok:
+                self.finding("RANGE", "intermediate-result-leaves-the-floating-point-range" if upper else "divisor-underflows-to-zero",
+                             "%s: %s" % (op, str(v)[:80]), m)
+                if self.concrete is None:
+                    raise Abort()
+                return      # concrete re-run: carry on in exact arithmetic so that the final state can be compared with the IEEE run
+
+    def fbin0(self, op, ty, a, b):
         a, b = self.as_real(a, ty), self.as_real(b, ty)
         if isinstance(a, NF) or isinstance(b, NF):
             return self.nf_arith(op, a, b)
